@@ -305,7 +305,7 @@ def c10_bounded(tier, seed):
                     "alignment after rewrites on a 3-block function with alignments 1/2/4/8/16 on the block after the edit and every single edit; "
                     "an aligned block starting inside an unaligned overlapping block, alignments 2..16, 1/2/3/5 bytes inserted before the group; "
                     "a patch containing .align 4/8/16 inserted into each of 3 blocks with the module's alignment table absent / empty / populated, ELF and PE")
-        br.clauses = ["C10/no-op-apply-is-the-identity", "C10/split-preserves-block-bytes-and-addresses", "C10/join-after-split-restores-the-interval",
+        br.clauses = ["C10/no-op-apply-is-the-identity", "C10/split-preserves-block-bytes-and-addresses", "C10/split-keeps-annotations-at-their-address", "C10/join-after-split-restores-the-interval",
                       "C10/alignment-requirements-hold-after-a-rewrite", "C10/padding-is-nops-or-zeros-covered-by-blocks"]
         distinct = set()
         for kind, funcs, cfi, ann, df in itertools.product(scen.KINDS, (False, True), scen.CFI_LAYOUTS, ("none", "block", "interval"), (False, True)):
@@ -325,8 +325,9 @@ def c10_bounded(tier, seed):
                     tuple(sorted((k, v.offset) for k, v in bi_.symbolic_expressions.items())), tuple(sorted(table.get(bi_, {}).items())))
         for k in (1, 2, 3):
             for layout in itertools.combinations(cands, k):
-                for data, torder in ((False, "asc"), (True, "asc"), (False, "desc"), (True, "mixed")):
-                    bi_ = gtirb.ByteInterval(contents=bytes(range(0x10, 0x10 + S)), address=0x1000)
+                for data, torder, init in ((False, "asc", S), (True, "asc", S), (False, "desc", S), (True, "mixed", S), (True, "asc", 2), (True, "desc", 0), (False, "asc", 3)):
+                    # init < S: the tail of the interval is uninitialized (bss-like): size S, only `init` bytes of contents
+                    bi_ = gtirb.ByteInterval(contents=bytes(range(0x10, 0x10 + init)), size=S, address=0x1000)
                     bl = []
                     for (o, s) in layout:
                         b = (gtirb.DataBlock if data else gtirb.CodeBlock)(offset=o, size=s)
@@ -341,14 +342,42 @@ def c10_bounded(tier, seed):
                     before = snap(bi_, table, bl)
                     pre = [(b.address, bytes(b.contents)) for b in bl]
                     br.cases += 1
-                    distinct.add(("sj", layout, data, torder))
+                    distinct.add(("sj", layout, data, torder, init))
                     try:
                         parts = split_byte_interval(bi_, None, [table])
                         if [(b.address, bytes(b.contents)) for b in bl] != pre:
-                            br.failures.append({"clause": "C10/split-preserves-block-bytes-and-addresses", "witness": {"layout": layout, "data": data}, "detail": ""})
+                            br.failures.append({"clause": "C10/split-preserves-block-bytes-and-addresses", "witness": {"layout": layout, "data": data, "initialized": init}, "detail": ""})
+                            continue
+                        # every annotation stays attached to the address it annotated (each entry records its original offset in its value)
+                        lost = []
+                        seen_c, seen_e = set(), set()
+                        for part in parts:
+                            for off, val in table.get(part, {}).items():
+                                p0 = int(val[1:])
+                                seen_c.add(p0)
+                                if part.address + off != 0x1000 + p0 or off > part.size:
+                                    lost.append("table entry of %#x now at %#x+%d (interval size %d)" % (0x1000 + p0, part.address, off, part.size))
+                            for off, e in part.symbolic_expressions.items():
+                                seen_e.add(e.offset)
+                                if part.address + off != 0x1000 + e.offset or off >= max(part.size, 1):
+                                    lost.append("expression of %#x now at %#x+%d (interval size %d)" % (0x1000 + e.offset, part.address, off, part.size))
+                        if seen_c != set(range(S + 1)) or seen_e != set(range(S)):
+                            lost.append("entries lost: table %s expressions %s" % (sorted(set(range(S + 1)) - seen_c), sorted(set(range(S)) - seen_e)))
+                        if lost:
+                            br.failures.append({"clause": "C10/split-keeps-annotations-at-their-address", "witness": {"layout": layout, "data": data, "initialized": init, "table order": torder}, "detail": "; ".join(lost[:3])})
                             continue
                         res = join_byte_intervals(parts, b"\x90", {}, [table])
-                        if snap(res, table, bl) != before:
+                        after = snap(res, table, bl)
+                        if init < S:
+                            # only a FULLY INITIALIZED interval is restored exactly; uninitialized bytes that precede a later block may
+                            # have become explicit zero / nop padding: compare everything but the bytes, and the bytes up to padding
+                            c1 = after[0]
+                            pad_ok = c1[:init] == before[0] and all(x in (0, 0x90) for x in c1[init:]) and len(c1) <= S
+                            strip = lambda t: (t[1], t[2], tuple((o_, s_, a_) for (o_, s_, a_, _) in t[3]), t[4], t[5])
+                            if not pad_ok or strip(after) != strip(before):
+                                br.failures.append({"clause": "C10/join-after-split-restores-the-interval", "witness": {"layout": layout, "data": data, "initialized": init}, "detail": repr(after)[:200]})
+                            continue
+                        if after != before:
                             br.failures.append({"clause": "C10/join-after-split-restores-the-interval", "witness": {"layout": layout, "data": data}, "detail": repr(snap(res, table, bl))[:200]})
                     except Exception as e:
                         br.failures.append({"clause": "C10/join-after-split-restores-the-interval", "witness": {"layout": layout, "data": data}, "detail": "%s: %s" % (type(e).__name__, str(e)[:80])})
